@@ -51,6 +51,7 @@ type Case struct {
 	// Many > 0: a geometry with many members: Shape "wide" = this many small
 	// members of the skeleton's kind, "deep" = a chain of collections nested
 	// this deep, "tree" = a complete binary tree of collections of this depth
+	Near  bool   `json:",omitempty"` // every ring / line of >= 2 vertices gets its second vertex and a copy of its first vertex whose X bit pattern is one higher appended (an almost closed ring)
 	Many  int    `json:",omitempty"`
 	Shape string `json:",omitempty"`
 }
@@ -139,7 +140,44 @@ func build(c Case) geom.Geom {
 			return geom.GeometryCollection{geom.LineString(pts), geom.GeometryCollection{geom.Polygon{pts}}}
 		}
 	}
-	return geomgen.Build(c.Skel, func() geom.Point { x := val(); y := val(); return geom.Point{X: x, Y: y} })
+	g := geomgen.Build(c.Skel, func() geom.Point { x := val(); y := val(); return geom.Point{X: x, Y: y} })
+	if c.Near {
+		cl := func(p []geom.Point) []geom.Point {
+			if len(p) >= 2 {
+				// (the second vertex once more, so that even a two-vertex member becomes a ring of four)
+				return append(p, p[1], geom.Point{X: math.Float64frombits(math.Float64bits(p[0].X) + 1), Y: p[0].Y})
+			}
+			return p
+		}
+		var rec func(g geom.Geom) geom.Geom
+		rec = func(g geom.Geom) geom.Geom {
+			switch t := g.(type) {
+			case geom.LineString:
+				return geom.LineString(cl(t))
+			case geom.MultiLineString:
+				for i := range t {
+					t[i] = cl(t[i])
+				}
+			case geom.Polygon:
+				for i := range t {
+					t[i] = cl(t[i])
+				}
+			case geom.MultiPolygon:
+				for i := range t {
+					for j := range t[i] {
+						t[i][j] = cl(t[i][j])
+					}
+				}
+			case geom.GeometryCollection:
+				for i := range t {
+					t[i] = rec(t[i])
+				}
+			}
+			return g
+		}
+		g = rec(g)
+	}
+	return g
 }
 
 func try(f func()) (p string) {
@@ -338,6 +376,9 @@ func main() {
 			}
 			for rot := 0; rot < rots; rot++ {
 				run(Case{Skel: s, Rot: rot, Order: order})
+				if rot%3 == 0 {
+					run(Case{Skel: s, Rot: rot, Order: order, Near: true})
+				}
 			}
 		}
 		// decode side: per-element byte orders
